@@ -292,7 +292,7 @@ impl Shard {
             failure_persistence: None,
             rng_seed: RngSeed::Fixed(seed),
             rng_algorithm: RngAlgorithm::ChaCha,
-            max_shrink_iters: 4000,
+            max_shrink_iters: 1500,
             max_global_rejects: 1,
             ..Config::default()
         };
